@@ -79,9 +79,9 @@ func (P *Prog) isNoReturnCall(in ssa.Instruction) bool {
 // PathQ describes a reachability question inside one function.
 type PathQ struct {
 	P           *Prog
-	Barrier     func(ssa.Instruction) bool                  // a path may not pass this instruction
+	Barrier     func(ssa.Instruction) bool                   // a path may not pass this instruction
 	EdgeBlocked func(from *ssa.BasicBlock, succIdx int) bool // a path may not take this edge
-	PassNoRet   bool                                        // if false (default) panicking/exiting calls end a path
+	PassNoRet   bool                                         // if false (default) panicking/exiting calls end a path
 }
 
 // Reach: is there a path from start (inclusive) to an instruction satisfying
@@ -390,8 +390,8 @@ func freeVarBinding(fv *ssa.FreeVar) ssa.Value {
 
 // nilCompare: v is `x == nil` / `x != nil` (also len(x)==0 forms when lenToo)
 type emptiness struct {
-	X      ssa.Value // the value tested
-	EmptyOnTrue bool  // cond true means "X is nil/empty"
+	X           ssa.Value // the value tested
+	EmptyOnTrue bool      // cond true means "X is nil/empty"
 }
 
 func asEmptiness(cond ssa.Value) (emptiness, bool) {
